@@ -294,8 +294,13 @@ func EncodeRemainLength(r io.ByteReader) (int, error) {
 	var multiplier uint32
 	for {
 		digit, err := r.ReadByte()
-		if err != nil && err != io.EOF {
+		if err != nil {
+			// also io.EOF: the variable byte integer is cut short
 			return 0, err
+		}
+		// at most four bytes [MQTT-1.5.5-1]
+		if multiplier > 21 {
+			return 0, codes.ErrMalformed
 		}
 		vbi |= uint32(digit&127) << multiplier
 		if vbi > 268435455 {
